@@ -389,6 +389,27 @@ func checkC10(c *Ctx, r *Report) {
 
 	// a command whose retries were given up is a failed command (rule shared by C04, C10, C13)
 	checkRetryFailureReturned(c, r)
+
+	// every datagram received is handed to the retry logic, and retransmission is decided there
+	// only: the transport neither filters replies (an undecodable one would become a lost one, which
+	// is terminal inside a session) nor sends on its own (rule shared with C11, C09)
+	checkOneWriteOneRead(c, r)
+}
+
+// lateFailure: the path classified the completion code as final and then found a call's error
+// non-nil; returns that decision's kind.
+func lateFailure(ds []Decision) string {
+	final, out := false, ""
+	for _, d := range ds {
+		if d.Kind == "temporary" && !d.Arm {
+			final = true
+			continue
+		}
+		if final && d.Arm && (strings.HasPrefix(d.Kind, "err:") || d.Kind == "decode-err") {
+			out = d.Kind
+		}
+	}
+	return out
 }
 
 // rejectSig summarises the decisions on a path that are not the standard ones.
@@ -510,7 +531,11 @@ func checkClosureExits(c *Ctx, r *Report) []SendClosure {
 				case hasDecision(tw, "innermost-err", true):
 					r.OK(fname+"|wrong-innermost-layer path", ret.Pos(), "reply without the expected innermost layer → retry")
 				default:
-					r.OK(fname+"|reject path "+rejectSig(tw), ret.Pos(), "reply rejected by an additional check → retry")
+					if lf := lateFailure(tw); lf != "" {
+						r.Bad(fname+"|final code then "+lf, ret.Pos(), "a reply carrying a final completion code is retried because a later step failed ("+lf+"): the first valid response with a non-temporary code must end the retries and be returned with that code; path "+tsig)
+					} else {
+						r.OK(fname+"|reject path "+rejectSig(tw), ret.Pos(), "reply rejected by an additional check → retry")
+					}
 				}
 			}
 			switch {
@@ -555,7 +580,17 @@ func checkClosureExits(c *Ctx, r *Report) []SendClosure {
 					}
 					r.Check(need, fname+"|accept path "+rejectSig(ds), ret.Pos(), "nil only after send, decode, innermost-layer and final-code checks", "closure returns nil (stop retrying) without having passed all of: send ok, decode ok, innermost layer ok, code not temporary; path "+sig)
 				} else {
-					r.Check(c.nonNilOnPath(p, ds, rv), fname+"|reject path "+rejectSig(ds), ret.Pos(), "reply rejected by an additional check → retry", "closure returns an error value not known to be non-nil; path "+sig)
+					// a reply whose completion code was classified final is the answer: a step that
+					// fails after that (decoding the body early, a cache update) must not turn it into
+					// a retry — the caller gets the code, and the decode error, from SendCommand.
+					// Comparisons of the decoded layers with the request (acceptance criteria) may
+					// come in any order; a failed call may not.
+					lateFail := lateFailure(ds)
+					if lateFail != "" {
+						r.Bad(fname+"|final code then "+lateFail, ret.Pos(), "a reply carrying a final completion code is retried because a later step failed ("+lateFail+"): the first valid response with a non-temporary code must end the retries and be returned with that code; path "+sig)
+					} else {
+						r.Check(c.nonNilOnPath(p, ds, rv), fname+"|reject path "+rejectSig(ds), ret.Pos(), "reply rejected by an additional check → retry", "closure returns an error value not known to be non-nil; path "+sig)
+					}
 				}
 			}
 		})
